@@ -251,6 +251,32 @@ UNITS = [
       bound='at most 2 frames x 2 points x 2 sub-frames x 2 channels (uniform shape), start offset <= 8',
       props={'memsafe': ['C13'], 'ub': ['C13']},
       assumes=['plain symbolic execution of the real writer stack Data::write ... Point::write / Channel::write over the stream model']),
+    U('Point_write_at', 'contracts/datawriters.c', 'h_Point_write_at', ['Point__write/contract_at_Point__write'],
+      ['C01', 'C03', 'C12', 'C14', 'C13', 'C18'], replace=['vf_stream_write/contract_vf_stream_write'], unwind=6, timeout=900, level='PB', object_bits=12,
+      bound='output buffer of 4096 bytes, any position in it'),
+    U('Points_write', 'contracts/datawriters.c', 'h_Points_write', ['Points__write/contract_Points__write'],
+      ['C01', 'C03', 'C12', 'C14', 'C13', 'C18'], replace=['Point__write/contract_at_Point__write'], loops=True,
+      pre_unwind={'h_Points_write.0': 33}, unwind=4, timeout=1800, level='PB', object_bits=12, defines=['VF_DW_CAP=512'],
+      bound='at most 32 points per frame (output buffer of 512 bytes), any number below that by loop contract'),
+    U('Channel_write_at', 'contracts/datawriters.c', 'h_Channel_write_at', ['Channel__write/contract_at_Channel__write'],
+      ['C01', 'C03', 'C12', 'C14', 'C13', 'C18'], replace=['vf_stream_write/contract_vf_stream_write'], unwind=6, timeout=900, level='PB',
+      object_bits=12, bound='output buffer of 4096 bytes, any position in it'),
+    U('SubFrame_write', 'contracts/datawriters.c', 'h_SubFrame_write', ['SubFrame__write/contract_SubFrame__write'],
+      ['C01', 'C03', 'C12', 'C14', 'C13', 'C18'], replace=['Channel__write/contract_at_Channel__write'], loops=True, defines=['VF_DW_CAP=512'],
+      unwind=4, timeout=1800, level='PB', object_bits=12,
+      bound='at most 128 channels per sub-frame (output buffer of 512 bytes), any number below that by loop contract'),
+    U('B_Parameter_write_int_1d', 'contracts/bounded_parameter_write.c', 'h_B_Parameter_write_int', [], ['C01', 'C03', 'C04', 'C12', 'C14', 'C13'], mode='bmc', defines=['VF_ND=1'],
+      unwind=6, unwindset={'vf_stream_write.0': 6}, timeout=1200, level='B', object_bits=12,
+      bound='INT parameter, name 1..2 characters, description <= 2, 1 dimension of at most 2, start offset <= 1',
+      props={'memsafe': ['C13'], 'ub': ['C13']},
+      assumes=['plain symbolic execution of the real Parameter::write / writeImbricatedParameter / toUpper over the stream model; values and '
+               'shape are consistent (what Parameter::set guarantees: units Parameter_set_int, isDimensionConsistent)']),
+    U('B_Parameter_write_int_2d', 'contracts/bounded_parameter_write.c', 'h_B_Parameter_write_int', [], ['C01', 'C03', 'C04', 'C12', 'C14', 'C13'], mode='bmc', defines=['VF_ND=2'],
+      unwind=6, unwindset={'vf_stream_write.0': 6}, timeout=1200, level='B', object_bits=12,
+      bound='INT parameter, name 1..2 characters, description <= 2, 2 dimensions of at most 2 each, start offset <= 1',
+      props={'memsafe': ['C13'], 'ub': ['C13']},
+      assumes=['plain symbolic execution of the real Parameter::write / writeImbricatedParameter / toUpper over the stream model; values and '
+               'shape are consistent (what Parameter::set guarantees: units Parameter_set_int, isDimensionConsistent)']),
     U('Parameters_write', WR, 'h_Parameters_write', ['Parameters__write/contract_Parameters__write'],
       ['C01', 'C03', 'C13', 'C14', 'C10'], replace=['Group__write/contract_abs_Group__write'], unwind=5, loops=True, timeout=900,
       pre_unwind={'vf_stream_write.0': 5, 'Parameters__write.0': 3},
